@@ -72,6 +72,14 @@ def _define():
     class GMatchSub(glom.MatchError):
         pass
 
+    # three different classes that share one __name__ (two libraries' ValidationError; a class made by a factory or re-created
+    # by a reload): the class of an error is the class object, never its name
+    def twin(base):
+        class UTwin(base):
+            pass
+        return UTwin
+    _USER['UTwinA'], _USER['UTwinB'], _USER['UTwinK'] = twin(Exception), twin(Exception), twin(KeyError)
+
     for c in (UPlain, UAttr, UInitAttr, UKwOnly, UArity, UPrefix, UKeySub, UMulti, UTypeSub, UBase,
               GPlain, GAttr, GArity, GPrefix, GKwOnly, GPathSub, GMatchSub):
         _USER[c.__name__] = c
@@ -83,7 +91,7 @@ BUILTIN_NAMES = ['ValueError', 'KeyError', 'TypeError', 'IndexError', 'Attribute
 GLOM_NAMES = ['GlomError', 'PathAccessError', 'PathAssignError', 'CoalesceError', 'BadSpec', 'UnregisteredTarget', 'MatchError',
               'TypeMatchError', 'CheckError', 'PathDeleteError', 'FoldError']
 USER_NAMES = ['UPlain', 'UAttr', 'UInitAttr', 'UKwOnly', 'UArity', 'UPrefix', 'UKeySub', 'UMulti', 'UTypeSub', 'UBase',
-              'GPlain', 'GAttr', 'GArity', 'GPrefix', 'GKwOnly', 'GPathSub', 'GMatchSub']
+              'GPlain', 'GAttr', 'GArity', 'GPrefix', 'GKwOnly', 'GPathSub', 'GMatchSub', 'UTwinA', 'UTwinB', 'UTwinK']
 CATALOGUE = BUILTIN_NAMES + GLOM_NAMES + USER_NAMES
 # the classes a planted fault raises
 PLANTABLE = ['ValueError', 'KeyError', 'TypeError', 'IndexError', 'AttributeError', 'ZeroDivisionError', 'RuntimeError',
@@ -97,6 +105,16 @@ def cls(name):
         return _USER[name]
     import glom
     return getattr(glom, name, None) or getattr(glom.core, name, None) or getattr(glom.matching, name, None) or getattr(builtins, name)
+
+
+def name_of(c):
+    """catalogue name of a class object (its __name__ when it is not a catalogue class)"""
+    if not _USER:
+        _define()
+    for n, k in _USER.items():
+        if k is c:
+            return n
+    return c.__name__
 
 
 def is_user(name):
